@@ -1,5 +1,6 @@
+import QuicModel.Drivers.Reassembler
 import QuicModel.Drivers.VarInt
 namespace Quic.Drivers
 def all : List Component :=
-  VarInt.components
+  Reassembler.components ++ VarInt.components
 end Quic.Drivers
